@@ -3,6 +3,7 @@ import PgModel.Json
 import PgModel.C05Codec
 import PgModel.C05Store
 import PgModel.C05Typed
+import PgModel.C05Handles
 import PgGen.C05Sig
 open Pg Pg.C05
 
@@ -165,6 +166,68 @@ def outToJ : Out → J
   | .names ns => .obj [("n", .arr (ns.map fun r => .str (toS r)))]
   | .err e => .obj [("err", .str (fsErrName e))]
 
+def hmodeOfJ : J → Option HMode
+  | .str "r" => some .r
+  | .str "w" => some .w
+  | .str "a" => some .a
+  | _ => none
+
+/-- A user-level operation: handle operations name the n-th `hopen` of the history. -/
+inductive UOp where
+  | plain (op : HOp)
+  | onHandle (u : Nat) (mk : Nat → HOp)
+
+def uopOfJ (j : J) : Option UOp := do
+  let k ← j.getStr? "k"
+  match k with
+  | "hread" =>
+    let n : Option Nat := (j.get? "n").bind J.asNat?
+    pure (.onHandle (← j.getNat? "h") (fun h => .hread h n))
+  | "hreadline" => pure (.onHandle (← j.getNat? "h") (fun h => .hreadline h))
+  | "hwrite" =>
+    let c := ofS (← j.getStr? "c")
+    pure (.onHandle (← j.getNat? "h") (fun h => .hwrite h c))
+  | "hclose" => pure (.onHandle (← j.getNat? "h") (fun h => .hclose h))
+  | _ =>
+    let p := ofS (← j.getStr? "p")
+    match k with
+    | "save" => pure (.plain (.save p (ofS (← j.getStr? "c"))))
+    | "load" => pure (.plain (.load p))
+    | "write" => pure (.plain (.write p (ofS (← j.getStr? "c")) (← (j.get? "m").bind hmodeOfJ)))
+    | "mkdirs" => pure (.plain (.mkdirs p))
+    | "seqw" =>
+      let rs ← (← j.getArr? "r").mapM (·.asStr?)
+      pure (.plain (.seqWrite p (← (j.get? "m").bind hmodeOfJ) (rs.map ofS)))
+    | "seqr" => pure (.plain (.seqRead p))
+    | "exists" => pure (.plain (.exists_ p))
+    | "hopen" => pure (.plain (.hopen p (← (j.get? "m").bind hmodeOfJ)))
+    | _ => none
+
+def houtToJ : HOut → J
+  | .unit => .null
+  | .content c => .obj [("c", .str (toS c))]
+  | .records rs => .obj [("r", .arr (rs.map fun r => .str (toS r)))]
+  | .bool b => .bool b
+  | .handle _ => .obj [("h", .bool true)]
+  | .err e => .obj [("err", .str (fsErrName e))]
+
+/-- Runs a user-level history; `tbl` maps the n-th `hopen` to the model handle (none: it failed). -/
+def runUser (cfg : HCfg) : HSt → List (Option Nat) → List UOp → List J
+  | _, _, [] => []
+  | s, tbl, .plain op :: rest =>
+    let (s1, o) := hStep cfg s op
+    let tbl1 := match op, o with
+      | .hopen _ _, .handle h => tbl ++ [some h]
+      | .hopen _ _, _ => tbl ++ [none]
+      | _, _ => tbl
+    houtToJ o :: runUser cfg s1 tbl1 rest
+  | s, tbl, .onHandle u mk :: rest =>
+    match tbl.getD u none with
+    | none => J.obj [("err", .str "NoHandle")] :: runUser cfg s tbl rest
+    | some h =>
+      let (s1, o) := hStep cfg s (mk h)
+      houtToJ o :: runUser cfg s1 tbl rest
+
 def handle (j : J) : J :=
   match j.getStr? "op" with
   | some "codec" =>
@@ -196,6 +259,12 @@ def handle (j : J) : J :=
       let (_, outs) := run c [] ops
       .obj [("outs", .arr (outs.map outToJ))]
     | _, _ => bad "store"
+  | some "hstore" =>
+    match j.getStr? "cfg", (j.getArr? "ops").bind (·.mapM uopOfJ) with
+    | some cfg, some ops =>
+      let c := if cfg == "perhandle" then HCfg.fixed else HCfg.head
+      .obj [("outs", .arr (runUser c HSt.empty [] ops))]
+    | _, _ => bad "hstore"
   | some "typed_dict" =>
     match (j.getArr? "fields").bind (·.mapM fieldOfJ),
           (j.getArr? "items").bind (·.mapM fun
